@@ -58,3 +58,59 @@ def declare(S: Spec):
          ensures=["self._completed", "self.error == error", "self._current_memory == 0",
                   "self.pool.consumed_ram_gb == old(self.pool.consumed_ram_gb) - old(self._current_memory)"],
          modifies=["self._current_memory", "self.pool.consumed_ram_gb", "self._completed", "self.error"])
+
+
+def declare2(S: Spec):
+    # container well-formedness (the part of the global invariant I4 that one container carries)
+    S.pred("CWF", [("c", Ref("Container"))],
+           "c is not None and c.assignment is not None and c.pool is not None and c.assignment.ops is not None"
+           " and nodup(c.assignment.ops) and all(WFop(op) for op in c.assignment.ops)"
+           " and 0 <= c._current_op_idx and c._current_op_idx <= len(c.assignment.ops)"
+           " and c.ticks_per_second >= 1 and c.tick_length_secs == rdiv(1.0, c.ticks_per_second)")
+    S.pred("rest", [("c", Ref("Container"))], "drop(c.assignment.ops, c._current_op_idx)")
+    OPS_MOD = ["(contents(op.pipeline._runtime_status.operator_states) for op in self.assignment.ops)",
+               "(contents(op.pipeline._runtime_status.state_counts) for op in self.assignment.ops)"]
+
+    def suffix_loop(target):
+        return dict(idx="j",
+                    inv=[f"all(state(rest(self)[i]) == OperatorState.{target} for i in range(0, j))",
+                         "all(state(o) == old(state(o)) for o in every('Operator') if o not in take(rest(self), j))",
+                         "all(WFop(op) for op in self.assignment.ops)",
+                         "j <= len(rest(self))"])
+
+    S.fn(f"{MC}:Container.kill",
+         params={"error": STR},
+         requires=["CWF(self)", "not self._completed",
+                   "all(state(op) in (OperatorState.ASSIGNED, OperatorState.RUNNING) for op in rest(self))"],
+         ensures=[("suffix-failed", "all(state(op) == OperatorState.FAILED for op in rest(self))"),
+                  ("others-kept", "all(state(o) == old(state(o)) for o in every('Operator') if o not in rest(self))"),
+                  ("ended", "self._completed and self.error == error and error != '' and self._current_memory == 0"),
+                  ("usage-returned", "self.pool.consumed_ram_gb == old(self.pool.consumed_ram_gb) - old(self._current_memory)"),
+                  ("wf-kept", "CWF(self)")],
+         raises={"AssertionError": ["error == ''"]},
+         modifies=OPS_MOD + ["self._current_memory", "self.pool.consumed_ram_gb", "self._completed", "self.error"],
+         loops={0: dict(header="for op in self.operators[self._current_op_idx:]", **suffix_loop("FAILED"))},
+         covers={"mid-run": "self._current_op_idx >= 1 and len(self.assignment.ops) >= 3"})
+
+    S.fn(f"{MC}:Container.suspend_container",
+         requires=["CWF(self)", "self.assignment.ram > 0",
+                   "all(state(op) == OperatorState.ASSIGNED for op in rest(self))"],
+         ensures=[("duration", "self.suspend_ticks == floor(rmul(self.assignment.ram / 20, self.ticks_per_second))"),
+                  ("counter", "self._suspend_ticks_left == self.suspend_ticks"),
+                  ("at-least-one", "self._suspend_ticks_left >= 1"),
+                  ("suffix-suspending", "all(state(op) == OperatorState.SUSPENDING for op in rest(self))"),
+                  ("others-kept", "all(state(o) == old(state(o)) for o in every('Operator') if o not in rest(self))"),
+                  ("wf-kept", "CWF(self)")],
+         modifies=OPS_MOD + ["self.suspend_ticks", "self._suspend_ticks_left"],
+         loops={0: dict(header="for op in self.operators[self._current_op_idx:]", **suffix_loop("SUSPENDING"))})
+
+    S.fn(f"{MC}:Container.suspend_container_tick",
+         requires=["CWF(self)", "self._suspend_ticks_left is not None", "self._suspend_ticks_left >= 1",
+                   "all(state(op) == OperatorState.SUSPENDING for op in rest(self))"],
+         ensures=[("counter", "self._suspend_ticks_left == old(self._suspend_ticks_left) - 1"),
+                  ("released", "implies(self._suspend_ticks_left == 0, all(state(op) == OperatorState.PENDING for op in rest(self)))"),
+                  ("others-kept", "all(state(o) == old(state(o)) for o in every('Operator') if o not in rest(self))"),
+                  ("not-yet", "implies(self._suspend_ticks_left != 0, all(state(o) == old(state(o)) for o in every('Operator')))"),
+                  ("wf-kept", "CWF(self)")],
+         modifies=OPS_MOD + ["self._suspend_ticks_left"],
+         loops={0: dict(header="for op in self.operators[self._current_op_idx:]", **suffix_loop("PENDING"))})
